@@ -433,6 +433,37 @@ def gen_dparse(tier, rng):
     return out, stats
 
 
+def gen_dparse_attrs(tier, rng):
+    """Implementation-only: types whose fields carry attributes outside the derive model's language (conditional and
+    typed defaults, default_missing_value, relations, value_parser ranges).  The first sentence of the property does not
+    depend on the attribute set: whatever `#[arg(..)]` says, the derived parser and its generated command must agree."""
+    per = 40 if tier == "quick" else 600
+    out = []
+    for s in DC.XTOPS:
+        out.append(case_line("dparse", s, "()"))
+        fields = flat_fields(s.nodes)
+        for _ in range(per):
+            r = rng.random()
+            if r < 0.5:
+                # a random subset of the fields, each in one spelling, random order
+                a = []
+                for f in fields:
+                    if rng.random() < 0.5:
+                        continue
+                    v = gen_field(f, rng)
+                    opts, pos = [], []
+                    print_field(f, v, opts, pos)
+                    a.append((opts, pos))
+                rng.shuffle(a)
+                argv = [t for o, _ in a for t in o] + [t for _, q in a for t in q]
+            else:
+                argv = print_value(s, gen_value(s, rng))
+            for _ in range(rng.choice([0, 0, 1, 2])):
+                argv = mutate(argv, s, rng)
+            out.append(case_line("dparse", s, argv_sx(argv)))
+    return out
+
+
 def dparse_oracle(case, impl):
     """parsing succeeds exactly when the command's parse succeeds, and then from_arg_matches gives the same value"""
     p = parts(impl)
@@ -785,6 +816,7 @@ def streams(tier, rng):
         Stream("venum", gen_venum(tier, rng), oracle=venum_oracle, area="derive", nontrivial=venum_nontrivial),
         Stream("dparse", dparse_cases, oracle=dparse_oracle, area="derive", project=dparse_project,
                nontrivial=dparse_nontrivial, describe=dparse_stats),
+        Stream("dparse-attrs", gen_dparse_attrs(tier, rng), oracle=dparse_oracle, area=None, nontrivial=dparse_nontrivial),
         Stream("dround", gen_dround(tier, rng), oracle=dround_oracle, area="derive", project=dround_project,
                nontrivial=dround_nontrivial),
         Stream("dupdate", gen_dupdate(tier, rng), oracle=dupdate_oracle, area="derive", nontrivial=dupdate_nontrivial),
